@@ -267,9 +267,12 @@ func (p *ProjectRunner) runProcess(config *types.ProcessConfig) {
 		if err = p.waitIfNeeded(proc.procConf); err != nil {
 			log.Error().Msgf("Error: %s", err.Error())
 			log.Error().Msgf("Error: process %s won't run", proc.getName())
-			proc.wontRun()
+			skipped := proc.wontRun()
 			p.addDoneProcess(proc)
-			p.onProcessSkipped(proc.procConf)
+			if skipped {
+				// not if it had been stopped while it was waiting
+				p.onProcessSkipped(proc.procConf)
+			}
 		} else {
 			verifYield("runner.released", proc.getName())
 			exitCode := proc.run()
